@@ -24,7 +24,7 @@ fn c01_flat(u: &mut U) -> c01::Op {
     use c01::{EntryAct::*, Op};
     let t = byte(u) % 4;
     let v = (byte(u) % 50) as i64;
-    match byte(u) % 22 {
+    match byte(u) % 23 {
         0..=4 => Op::Insert(t, v),
         5 | 6 => Op::Remove(t),
         7 => Op::Take(t),
@@ -49,6 +49,7 @@ fn c01_flat(u: &mut U) -> c01::Op {
         }
         16 => Op::FindMutInsertOther(t, byte(u) % 4, v),
         17..=19 => Op::Push,
+        22 => Op::InsertAt(byte(u) % 4, t, v),
         _ => Op::Pop,
     }
 }
@@ -151,7 +152,7 @@ fn c03_node(u: &mut U, depth: u8, budget: &mut usize) -> c03::Node {
     *budget = budget.saturating_sub(1);
     let b = byte(u);
     if depth == 0 || b % 16 < 7 {
-        let k = byte(u) % 4;
+        let k = byte(u) % 5;
         let v = (byte(u) % 50) as i64;
         let e = match b % 7 {
             0 => Effect::None,
@@ -176,9 +177,9 @@ pub fn decode_c03(data: &[u8]) -> c03::Case {
     let mut u = U::new(data);
     let flags = byte(&mut u);
     let fault = if flags & 1 == 1 { Some(byte(&mut u) as u16) } else { None };
-    let mut seeds = [None; 4];
+    let mut seeds = [None; 5];
     for (k, s) in seeds.iter_mut().enumerate() {
-        if flags & (2 << k) != 0 {
+        if k < 4 && flags & (2 << k) != 0 {
             *s = Some(10 * k as i64 + (byte(&mut u) % 9) as i64);
         }
     }
